@@ -17,7 +17,6 @@ import (
 	"reflect"
 	"regexp"
 	"sort"
-	"strconv"
 	"strings"
 	"text/template"
 
@@ -188,12 +187,11 @@ func NewRootConfig(
 				// struct to see what the type actually should be cast to. I'm sure
 				// the koanf project would appreciate a PR to add an environment
 				// parser:
-				if strings.ToLower(value) == "true" || strings.ToLower(value) == "false" {
-					valueAsBool, err := strconv.ParseBool(value)
-					if err != nil {
-						panic(err)
-					}
-					return normalizedKey, valueAsBool
+				switch strings.ToLower(value) {
+				case "true":
+					return normalizedKey, true
+				case "false":
+					return normalizedKey, false
 				}
 				return normalizedKey, value
 			}),
